@@ -380,6 +380,86 @@ func raceHMAC(c *Ctx) {
 		iters = 3000
 	}
 	var total int64
+	// first, on one goroutine (deterministic, the real sync.Pool): one instance stays in use while n other keys pass
+	// through the same pool - what a server verifying n other users' messages does while one check is in progress
+	for _, sha256on := range []bool{false, true} {
+		acquire, put, refMAC := hmacx.AcquireSHA1, hmacx.PutSHA1, ref.HMACSHA1
+		if sha256on {
+			acquire, put, refMAC = hmacx.AcquireSHA256, hmacx.PutSHA256, ref.HMACSHA256
+		}
+		for _, n := range []int{1, 2, 3, 4, 8, 15, 16, 17, 31, 32, 33, 64, 65, 128, 300} {
+			for prep := 0; prep < 3; prep++ {
+				total++
+				keyA := patBytes([]int{20, 64, 100}[prep], 200+n)
+				p1, p2, msg2 := patBytes(70, 1), patBytes(33, 2), patBytes(5, 3)
+				if prep > 0 { // the key has been through the pool before
+					h0 := acquire(keyA)
+					h0.Write(p1)
+					put(h0)
+				}
+				hA := acquire(keyA)
+				hA.Write(p1)
+				bad := ""
+				for i := 0; i < n && bad == ""; i++ {
+					k := patBytes(1+(i*7)%90, i)
+					k = append(k, byte(i), byte(i>>8)) // distinct
+					h := acquire(k)
+					h.Write(p2)
+					if got := h.Sum(nil); string(got) != string(refMAC(k, p2)) {
+						bad = fmt.Sprintf("key %d of %d passing through the pool while another instance is in use: wrong HMAC (sha256=%v)", i, n, sha256on)
+					}
+					put(h)
+				}
+				if bad == "" {
+					hA.Write(p2)
+					if got := hA.Sum(nil); string(got) != string(refMAC(keyA, append(append([]byte{}, p1...), p2...))) {
+						bad = fmt.Sprintf("an instance keyed with a %d-byte key (seen by the pool %d times before), half written, then %d other keys acquired, used and returned: its Sum is not the HMAC of what was written to it (sha256=%v)", len(keyA), prep, n, sha256on)
+					}
+				}
+				if bad == "" {
+					hA.Reset()
+					hA.Write(msg2)
+					if got := hA.Sum(nil); string(got) != string(refMAC(keyA, msg2)) {
+						bad = fmt.Sprintf("an instance keyed with a %d-byte key, after %d other keys went through the pool: Reset, Write, Sum is not the HMAC under its key (sha256=%v)", len(keyA), n, sha256on)
+					}
+				}
+				put(hA)
+				if bad != "" {
+					c.Res.Violations = append(c.Res.Violations, raceViolation("wrong-digest/instance-in-use-while-other-keys-pass", bad))
+					racePassFinish(c, total, "")
+					return
+				}
+			}
+		}
+	}
+	// the two pools are two pools: one key through both, in both orders (a long-term key is used with SHA-1 by RFC
+	// 5389 peers and with SHA-256 by RFC 8489 peers)
+	for _, kl := range []int{0, 20, 64, 65, 100, 300} {
+		for order := 0; order < 2; order++ {
+			total++
+			key, msg := patBytes(kl, 77+order), patBytes(41, 9)
+			for step := 0; step < 4; step++ {
+				use256 := (step+order)%2 == 1
+				var got, want []byte
+				if use256 {
+					h := hmacx.AcquireSHA256(key)
+					h.Write(msg)
+					got, want = h.Sum(nil), ref.HMACSHA256(key, msg)
+					hmacx.PutSHA256(h)
+				} else {
+					h := hmacx.AcquireSHA1(key)
+					h.Write(msg)
+					got, want = h.Sum(nil), ref.HMACSHA1(key, msg)
+					hmacx.PutSHA1(h)
+				}
+				if string(got) != string(want) {
+					c.Res.Violations = append(c.Res.Violations, raceViolation("wrong-digest/one-key-through-both-pools", fmt.Sprintf("a %d-byte key used with both pools in turn (first with sha256=%v): use %d (sha256=%v) gives a wrong HMAC", kl, order == 1, step, use256)))
+					racePassFinish(c, total, "")
+					return
+				}
+			}
+		}
+	}
 	for it := 0; it < iters; it++ {
 		if c.Expired() {
 			break
